@@ -245,6 +245,31 @@ func dmCuts(lines []string) []dmCut {
 		}
 		if e := dmBlockEnd(lines, i); e > i {
 			cs = append(cs, dmCut{i, e, false})
+			// suffixes of the block's statement list (with and without its last statement): removes
+			// chains of dependent statements (resource creation ... destruction) in one step
+			ind := len(lines[i]) - len(strings.TrimLeft(lines[i], " "))
+			var kids []int
+			for j := i + 1; j < e; j++ {
+				tj := strings.TrimSpace(lines[j])
+				if tj != "" && len(lines[j])-len(strings.TrimLeft(lines[j], " ")) == ind+4 && !strings.HasPrefix(tj, "}") {
+					kids = append(kids, j)
+				}
+			}
+			if len(kids) > 2 {
+				last := kids[len(kids)-1]
+				for _, k := range kids[:len(kids)-1] {
+					if e-1 > k {
+						cs = append(cs, dmCut{k, e - 1, false})
+					}
+					if last-1 > k {
+						cs = append(cs, dmCut{k, last - 1, false})
+					}
+				}
+				// prefixes of the statement list
+				for _, k := range kids[2:] {
+					cs = append(cs, dmCut{kids[0], k - 1, false})
+				}
+			}
 			if !strings.HasPrefix(t, "access(") && !strings.HasPrefix(t, "transaction") && !strings.HasPrefix(t, "prepare") {
 				cs = append(cs, dmCut{i, e, true})
 			}
@@ -308,22 +333,78 @@ func dmShrinkScenario(sc *dmScenario, vm bool, want dmVerdict, failing int, budg
 		order = append(order, i)
 	}
 	for _, si := range order {
-		progress := true
-		for progress && s.runs < s.budget {
-			progress = false
-			lines := strings.Split(cur.Steps[si].Code, "\n")
-			for _, c := range dmCuts(lines) {
+		// passes over the removal candidates, outermost blocks first; lines carry stable ids so that
+		// one pass tries every candidate at most once
+		type idLine struct {
+			id   int
+			text string
+		}
+		var cl []idLine
+		for i, l := range strings.Split(cur.Steps[si].Code, "\n") {
+			cl = append(cl, idLine{i, l})
+		}
+		for pass := 0; pass < 3 && s.runs < s.budget; pass++ {
+			texts := make([]string, len(cl))
+			for i, l := range cl {
+				texts[i] = l.text
+			}
+			type idCut struct {
+				ids    map[int]bool
+				indent int
+				size   int
+			}
+			var cands []idCut
+			for _, c := range dmCuts(texts) {
+				ic := idCut{ids: map[int]bool{}, indent: len(texts[c.from]) - len(strings.TrimLeft(texts[c.from], " "))}
+				if c.unwrap {
+					ic.ids[cl[c.from].id] = true
+					ic.ids[cl[c.to].id] = true
+				} else {
+					for k := c.from; k <= c.to; k++ {
+						ic.ids[cl[k].id] = true
+					}
+				}
+				ic.size = len(ic.ids)
+				cands = append(cands, ic)
+			}
+			sort.SliceStable(cands, func(a, b int) bool {
+				if cands[a].indent != cands[b].indent {
+					return cands[a].indent < cands[b].indent
+				}
+				return cands[a].size > cands[b].size
+			})
+			progress := false
+			for _, c := range cands {
 				if s.runs >= s.budget {
 					break
 				}
-				nl := dmApplyCut(lines, c)
+				present := 0
+				for _, l := range cl {
+					if c.ids[l.id] {
+						present++
+					}
+				}
+				if present != c.size {
+					continue // overlaps a cut already applied
+				}
+				var nl []idLine
+				var nt []string
+				for _, l := range cl {
+					if !c.ids[l.id] {
+						nl = append(nl, l)
+						nt = append(nt, l.text)
+					}
+				}
 				cand := cur.clone()
-				cand.Steps[si].Code = strings.Join(nl, "\n")
+				cand.Steps[si].Code = strings.Join(nt, "\n")
 				if ok, f := s.holds(cand); ok && f == len(cand.Steps)-1 {
 					cur = cand
+					cl = nl
 					progress = true
-					break
 				}
+			}
+			if !progress {
+				break
 			}
 		}
 		for _, sp := range dmSimplifiers {
